@@ -245,6 +245,22 @@ def r3(P: Project, R: Report) -> None:
     R.need(len(per_msg) == 1, f"anchor: expected one StdioClient method consulting can_process_batch, found {len(per_msg)}")
     pm = per_msg[0]
     R.fn(pm.fq)
+    # the mode is read per message: the object whose gate is consulted is the client's attribute as it is when this
+    # message is processed — not a value the caller read earlier (once per chunk, once per connection) and handed in
+    from ..model import local_values as _lv
+
+    lvp = _lv(pm.node)
+    pparams = set(pm.params()) - {"self"}
+    for c in walk_local(pm.node):
+        if isinstance(c, ast.Call) and isinstance(c.func, ast.Attribute) and c.func.attr == "can_process_batch":
+            recv = c.func.value
+            srcs = [recv]
+            if isinstance(recv, ast.Name):
+                srcs = [v for v in lvp.get(recv.id, []) if v is not None] + ([recv] if recv.id in pparams else [])
+            handed_in = [ast.unparse(x) for x in srcs if any(isinstance(n, ast.Name) and n.id in pparams for n in ast.walk(x))]
+            R.ob("R3", "the batching mode consulted for a message is the client's current one", not handed_in, f"{pm.module.rel}:{c.lineno}",
+                 f"`{ast.unparse(c)[:60]}` consults an object that can come from the caller (`{handed_in[0] if handed_in else ''}`): a caller that reads the processor once for several lines decides later lines by the mode in force before the version was recorded",
+                 sample=f"R3 {pm.qual}: gate consulted on {ast.unparse(recv)}")
     data_p = [x for x in pm.positional_params() if x != "self"]
     R.need(len(data_p) == 1, "per-message function parameters changed")
     data = data_p[0]
